@@ -1,19 +1,29 @@
-"""C08 — check_min_burst_cycles vs Model/Runs.v (minrun and the code-shaped minrun_code)."""
+"""C08 — check_min_burst_cycles vs Model/Runs.v (minrun and the code-shaped minrun_code), through the entry point
+`check_min_burst_cycles` of Model/TableRuns.v (argument checks and result dtype are pinned there, not in the oracle)."""
 import numpy as np
 from harness import coqio
 from harness.core import exc_kind
 
 PROP = 'C08'
 PROPS_FILE = 'Props/C08.v'
-COQ_HEADER = 'From Coq Require Import List NArith. Import ListNotations.\nFrom ByC Require Import Harness.Compare Model.Runs.'
-COQ_RUNNER = 'bad_minrun'
+COQ_HEADER = ('From Coq Require Import List NArith ZArith. Import ListNotations.\n'
+              'From ByC Require Import Base.Result Harness.Compare Model.Runs Model.TableRuns.')
+COQ_RUNNER = 'bad_check_min'
+COQ_TYPES = ('cm_in', 'lab_obs')
 SHARD = 4000
 RULE = ('every boolean array of length <= L (quick L=10, thorough L=13) x every min_n_cycles in 0..len+2, '
-        'plus run-length-biased random arrays up to 1500 cycles; non-trivial = the array contains both a run '
-        'that is kept and a run that is cleared, or a run touching an end of the array')
+        'plus run-length-biased random arrays up to 1500 cycles (a quarter of them passed as strided views of a '
+        'larger array); non-trivial = the array contains both a run that is kept and a run that is cleared, or a '
+        'run touching an end of the array. Inputs outside the quantifier (negative min_n_cycles, Python lists, '
+        'negative count with an empty array) are generated too but judged by the model comparison only')
 EXHAUSTIVE = {'quick': True, 'thorough': True}
-ASSUMPTIONS = ['min_n_cycles is a non-negative integer and the input is a boolean numpy array (other inputs '
-               'are only checked to raise ValueError)']
+ASSUMPTIONS = ['the statement oracle judges boolean numpy arrays with an integer min_n_cycles >= 0 (the quantifier of '
+               'the property); for negative counts and list arguments, and for the dtype of the returned array '
+               '(boolean), only the model comparison applies (Model/TableRuns.v check_min_burst_cycles: ValueError, '
+               'early return of an empty array, bool dtype); float-valued counts are not generated (min_n_cycles is '
+               'documented as an int)',
+               'label values are read through bool(); an idempotence failure is judged on those values']
+ERRMAP = {'Value': 'EValue', 'Index': 'EIndex', 'Key': 'EKey', 'Type': 'EType'}
 
 
 def cases(rng, tier):
@@ -34,8 +44,18 @@ def cases(rng, tier):
             cur = not cur
         bits = bits[:ln]
         out.append({'kind': 'random', 'len': ln, 'mask': coqio.mask_of(bits), 'n': rng.choice([0, 1, 2, 3, 4, 5, 7, 12])})
+    for c in out:
+        if c['kind'] == 'random':
+            c['view'] = rng.random() < 0.25      # passed as a strided view of a larger array
+    # outside the property's quantifier: kept for the model comparison, never judged by the oracle
     out.append({'kind': 'invalid', 'len': 4, 'mask': 6, 'n': -1})
+    out.append({'kind': 'invalid', 'len': 0, 'mask': 0, 'n': -1})
     out.append({'kind': 'invalid_list', 'len': 4, 'mask': 6, 'n': 2})
+    out.append({'kind': 'invalid_list', 'len': 0, 'mask': 0, 'n': 0})
+    for _ in range(8 if tier == 'quick' else 40):
+        ln = rng.choice([0, 1, 2, 3, 6, 9])
+        out.append({'kind': rng.choice(['invalid', 'invalid', 'invalid_list']), 'len': ln, 'mask': rng.getrandbits(ln) if ln else 0,
+                    'n': rng.choice([-1, -2, -7])})
     return out
 
 
@@ -46,17 +66,22 @@ def _bits(c):
 def run_impl(c):
     from bycycle.burst.utils import check_min_burst_cycles
     arr = np.array(_bits(c), dtype=bool)
+    if c.get('view'):
+        # the same values as a non-contiguous view (every second element of a larger array)
+        big = np.zeros(2 * len(arr), dtype=bool)
+        big[::2] = arr
+        arr = big[::2]
+    else:
+        arr = arr.copy()
     try:
-        if c['kind'] == 'invalid_list':
-            r = check_min_burst_cycles(list(arr), min_n_cycles=c['n'])
-        else:
-            r = check_min_burst_cycles(arr.copy(), min_n_cycles=c['n'])
-            r2 = check_min_burst_cycles(np.array(r, dtype=bool).copy(), min_n_cycles=c['n'])
+        r = check_min_burst_cycles([bool(x) for x in arr] if c['kind'] == 'invalid_list' else arr, min_n_cycles=c['n'])
+        isbool = bool(getattr(r, 'dtype', None) == np.bool_)
+        r = np.asarray(r)
+        r2 = check_min_burst_cycles(np.array(r, dtype=bool).copy(), min_n_cycles=c['n'])
     except Exception as e:
         return {'err': exc_kind(e)}
-    r = np.asarray(r)
-    return {'len': int(r.shape[0]) if r.ndim == 1 else -1, 'mask': coqio.mask_of([bool(x) for x in r]),
-            'twice': coqio.mask_of([bool(x) for x in np.asarray(r2)])}
+    return {'len': int(r.shape[0]) if r.ndim == 1 else -1, 'mask': coqio.mask_of([bool(x) for x in r.ravel()]),
+            'twice': coqio.mask_of([bool(x) for x in np.asarray(r2).ravel()]), 'dtype_bool': isbool}
 
 
 def _spec(bits, n):
@@ -77,7 +102,7 @@ def _spec(bits, n):
 
 def oracle(c, o):
     if c['kind'].startswith('invalid'):
-        return None if o.get('err') == 'Value' else 'invalid input accepted or wrong error: %s' % o
+        return None      # outside the quantifier (boolean arrays, min_n_cycles >= 0): model comparison only
     if 'err' in o:
         return 'raised %s on a valid input' % o['err']
     if o['len'] != c['len']:
@@ -101,9 +126,10 @@ def nontrivial(c, o):
 
 
 def coq_case(c, o):
-    if c['kind'].startswith('invalid') or 'err' in o:
-        return None
-    return ('(%s, %d%%nat)' % (coqio.barr(c['len'], c['mask']), c['n']), coqio.barr(max(o['len'], 0), o['mask']))
+    inp = '(%s, %s, %s%%Z)' % ('PyList' if c['kind'] == 'invalid_list' else 'NdArray', coqio.barr(c['len'], c['mask']), coqio.Z(c['n']))
+    if 'err' in o:
+        return inp, '(Err %s)' % ERRMAP.get(o['err'], 'EOther')
+    return inp, '(Ok (%s, %s))' % (coqio.B(o.get('dtype_bool', True)), coqio.barr(max(o['len'], 0), o['mask']))
 
 
 def shrink(c):
